@@ -191,6 +191,8 @@ fn op_name(op: &EOp) -> &'static str {
 struct Built {
     e: Element,
     a: Option<AffinePoint>,
+    /// pool index of the element this one is merely another representation of
+    same_as: Option<usize>,
     rng: Option<(u64, u64, u64)>, // draws, faulty draws, try_fill calls
     none: bool,                   // constructor legitimately yielded nothing
 }
@@ -199,6 +201,7 @@ fn plain(e: Element) -> Built {
     Built {
         e,
         a: None,
+        same_as: None,
         rng: None,
         none: false,
     }
@@ -207,6 +210,7 @@ fn aff(a: AffinePoint) -> Built {
     Built {
         e: a.into(),
         a: Some(a),
+        same_as: None,
         rng: None,
         none: false,
     }
@@ -218,6 +222,13 @@ fn build(op: &EOp, pool: &[PoolEntry]) -> Built {
             Element::GENERATOR
         } else {
             pool[i % pool.len()].e
+        }
+    };
+    let src_index = |i: usize| -> Option<usize> {
+        if pool.is_empty() {
+            None
+        } else {
+            Some(i % pool.len())
         }
     };
     let gets = |is: &Vec<usize>| -> Vec<Element> {
@@ -261,18 +272,32 @@ fn build(op: &EOp, pool: &[PoolEntry]) -> Built {
         EOp::AffineRoundTrip(i) => {
             let a: AffinePoint = get(*i).into();
             let e: Element = a.into();
-            plain(e)
+            Built {
+                same_as: src_index(*i),
+                ..plain(e)
+            }
         }
-        EOp::IntoAffine(i) => aff(get(*i).into_affine()),
+        EOp::IntoAffine(i) => Built {
+            same_as: src_index(*i),
+            ..aff(get(*i).into_affine())
+        },
         EOp::NormalizeBatch(is, k) => {
             let v = gets(is);
             let r = Element::normalize_batch(&v);
-            aff(r[*k % r.len()])
+            let j = *k % r.len();
+            Built {
+                same_as: is.get(j).and_then(|i| src_index(*i)),
+                ..aff(r[j])
+            }
         }
         EOp::BatchConvert(is, k) => {
             let v = gets(is);
             let r = Element::batch_convert_to_mul_base(&v);
-            aff(r[*k % r.len()])
+            let j = *k % r.len();
+            Built {
+                same_as: is.get(j).and_then(|i| src_index(*i)),
+                ..aff(r[j])
+            }
         }
         EOp::FromRandomBytes(h) => {
             match AffinePoint::from_random_bytes(&unhex(h).unwrap_or_default()) {
@@ -432,6 +457,29 @@ fn build_pool(ctx: &mut Ctx, run: &IoRun) -> Vec<PoolEntry> {
                     continue;
                 }
                 let tag = check_valid(ctx, name, &b.e, &b.a, pop.full_check);
+                // a conversion between representations (affine <-> projective, batch normalisation) must not
+                // change which element is represented, or the two forms would encode differently
+                if let (Some(j), Some(t)) = (b.same_as, &tag) {
+                    if let Some(src_tag) = pool.get(j).and_then(|p| p.tag.as_ref()) {
+                        if rd::valid_representative_cheap(src_tag).is_ok() {
+                            if !rd::equal(src_tag, t) {
+                                ctx.viol(
+                                    "C03",
+                                    "representation_dependent",
+                                    format!("op={}", name),
+                                    format!(
+                                        "{} changed the element: {} became {}",
+                                        name,
+                                        bridge::pt_hex(src_tag),
+                                        bridge::pt_hex(t)
+                                    ),
+                                );
+                            } else {
+                                ctx.probe("conversion_preserved_element");
+                            }
+                        }
+                    }
+                }
                 if let Some(t) = &tag {
                     if t.x.is_zero() && t.y == simcore::field::fq().neg(&BigUint::from(1u32)) {
                         ctx.probe("pool_has_2torsion_identity_representative");
@@ -1110,6 +1158,78 @@ fn do_fmt(ctx: &mut Ctx, pool: &[PoolEntry], idx: usize, affine: bool, debug: bo
     }
 }
 
+/// Uncompressed serialisation. On the pinned tree the mode flag is ignored and
+/// the 32 canonical bytes are written. Whatever a tree writes in this mode must
+/// still depend only on the element (C03): it must be the canonical encoding.
+/// A tree that does not offer the mode (`unimplemented!()`) is accepted.
+fn do_uncompressed_ser(ctx: &mut Ctx, pool: &[PoolEntry], idx: usize, as_: ElemAs, wplan: &IoPlan) {
+    let p = elem_entry(pool, idx);
+    let tag = match &p.tag {
+        Some(t) => t.clone(),
+        None => return,
+    };
+    let expected = match rd::encode(&tag) {
+        Some(b) => b.to_vec(),
+        None => return,
+    };
+    if rd::valid_representative_cheap(&tag).is_err() {
+        return;
+    }
+    let mut medium: Vec<u8> = Vec::new();
+    let (r, st) = {
+        let mut sink = SimSink::new(&mut medium, wplan);
+        let e = p.e;
+        let a: AffinePoint = p.a.unwrap_or_else(|| p.e.into());
+        let r = catch_unwind(AssertUnwindSafe(|| match as_ {
+            ElemAs::Element => e.serialize_uncompressed(&mut sink),
+            ElemAs::Affine => a.serialize_uncompressed(&mut sink),
+            ElemAs::Encoding => e.vartime_compress().serialize_uncompressed(&mut sink),
+        }));
+        (r, sink.stats.clone())
+    };
+    ctx.seam_stats(&st, "w");
+    ctx.ev("serialize_uncompressed");
+    let fatal = wplan.fatal_in(0, medium.len().max(expected.len())).is_some();
+    match r {
+        Err(pn) => {
+            let msg = panic_msg(pn);
+            if msg.contains("not implemented") {
+                ctx.probe("uncompressed_serialisation_not_offered");
+            } else {
+                ctx.viol("C03", "panic", format!("op=serialize_uncompressed as={:?}", as_), msg);
+            }
+        }
+        Ok(Ok(())) => {
+            if medium != expected {
+                ctx.viol(
+                    "C03",
+                    "ser_bytes",
+                    format!("op=serialize_uncompressed shape={:?} fault={}", as_, fatal),
+                    format!(
+                        "{:?} from {}: uncompressed serialisation wrote {} but the canonical encoding is {}",
+                        as_,
+                        p.src,
+                        hex(&medium),
+                        hex(&expected)
+                    ),
+                );
+            } else {
+                ctx.probe("uncompressed_serialisation_is_canonical");
+            }
+        }
+        Ok(Err(e)) => {
+            if !fatal {
+                ctx.viol(
+                    "C03",
+                    "ser_err_without_fault",
+                    format!("op=serialize_uncompressed shape={:?} err={}", as_, ser_err_class(&e)),
+                    format!("{:?}", e),
+                );
+            }
+        }
+    }
+}
+
 fn send_all(ctx: &mut Ctx, run: &IoRun, pool: &[PoolEntry], fpool: &[FEntry]) -> Vec<Seg> {
     let mut medium: Vec<u8> = Vec::new();
     let mut segs: Vec<Seg> = Vec::new();
@@ -1119,6 +1239,10 @@ fn send_all(ctx: &mut Ctx, run: &IoRun, pool: &[PoolEntry], fpool: &[FEntry]) ->
         ctx.out.records_total += 1;
         if rec.wplan.is_clean() && rec.rplan.is_clean() && !rec.flush_fails {
             ctx.out.records_fault_free += 1;
+        }
+        if let Payload::ElemUncompressed { idx, as_ } = &rec.payload {
+            do_uncompressed_ser(ctx, pool, *idx, *as_, &rec.wplan);
+            continue;
         }
         if let Payload::Fmt { idx, affine, debug, fail_at } = &rec.payload {
             do_fmt(ctx, pool, *idx, *affine, *debug, *fail_at);
